@@ -22,7 +22,7 @@ FAMILY = {
     "C08": {"results_read_when_idle", "one_stored_chain_per_started_epoch",
             "tracked_keys_respect_included_excluded", "stored_chain_is_thinned_per_iteration_states",
             "stored_chain_empty_iff_nothing_kept", "transition_infos_for_every_transition",
-            "kernel_states_for_every_transition", "stored_kernel_states_are_those_after_the_transition", "posterior_accessor_returns_exactly_posterior_epochs", "stored_results_unchanged_by_reading_and_summarising",
+            "kernel_states_for_every_transition", "stored_kernel_states_are_those_after_the_transition", "posterior_accessor_returns_exactly_posterior_epochs", "stored_results_unchanged_by_reading_and_summarising", "results_object_obtained_earlier_shows_what_was_sampled_since",
             "generated_quantities_once_per_stored_iteration_from_post_transition_state"},
     "C09": {"starts_from_state_left_by_predecessor", "blocks_only_written_by_their_own_kernel",
             "probe_wrote_expected_tag"},
@@ -64,8 +64,8 @@ def handwritten(tier_quick: bool):
     I = C(0, 1)
     sc = [
         # two posterior epochs, the second appended late; sample_next past the end raises
-        dict(ops=[("append", I), ("append", C(1, 4, 2)), ("next",), ("next",), ("append", C(2, 2)),
-                  ("append", C(4, 4, 2)), ("append", C(4, 2)), ("all",), ("next",)],
+        dict(ops=[("append", I), ("append", C(1, 4, 2)), ("next",), ("next",), ("read",), ("append", C(2, 2)),
+                  ("append", C(4, 4, 2)), ("next",), ("next",), ("read",), ("append", C(4, 2)), ("all",), ("next",)],
              K=2, needs_hist=(2,), chains=2, J=2, nq=2),
         # everything up front through the builder (J = gcd), three kernels, rejected appends
         dict(ops=[("append", C(2, 3)), ("all",), ("append", C(4, 6, 3)), ("append", C(1, 3)), ("all",),
